@@ -98,7 +98,7 @@ class K17(Harness):
         c2.severity_list = rl2.oSeverityList
         r2.configure(c2)
         emitted2 = json_roundtrip(r2.get_configuration())
-        clauses = [("emit_is_idempotent", Eq(emitted1, emitted2)), ("same_keys", set(emitted1.keys()) == set(r.configuration))]
+        clauses = [("emit_is_idempotent", Eq(emitted1, emitted2))]
         for k, v in vals.items():
             if k == "severity":
                 clauses.append(("effective_severity", r2.severity is not None and r2.severity.name == v))
